@@ -258,9 +258,9 @@ def make_obj_class(versions=False):
             self.hist.append((pos, cid, variant))
             if self._sim is not None and self._sim.cluster.cfg.get('pad'):
                 # ballast that is a function of the last executed command only (so equal histories still give equal
-                # snapshot bytes): incompressible, 0..224 bytes - a newer snapshot is often SHORTER than an older one
+                # snapshot bytes): incompressible, 0 / 160 / 320 / 480 bytes - a newer snapshot is often SHORTER than an older one
                 import hashlib as _h, zlib as _z
-                k = _z.crc32(str(cid).encode()) % 8
+                k = 5 * (_z.crc32(str(cid).encode()) % 4)
                 self.pad = b''.join(_h.sha256(('%s/%d' % (cid, i)).encode()).digest() for i in range(k))
             return len(self.hist)
 
